@@ -76,3 +76,74 @@ func zzDone() context.Context {
 	close(ch)
 	return zzDoneCtx{context.Background(), ch}
 }
+
+// ZZSeqChurn (C16): subscriber churn on the real sequenceWaiterTracker. A symbolic program of `steps`
+// steps over up to 4 subscribers on two prefixes: subscribe (to "p" or "q"), close one, or publish the
+// next key of a prefix. Model: after every publication each LIVE subscriber of that prefix — and nobody
+// else — must find exactly that key as its latest value; a closed subscriber's channel is closed; closing
+// or adding other subscribers never disconnects a live one.
+func ZZSeqChurn(steps int) {
+	tr := NewSequencesWaitTracker()
+	const maxS = 4
+	var subs [maxS]*sequenceWaiter
+	var prefix [maxS]string
+	var live [maxS]bool
+	var expect [maxS]string // latest value published to that subscriber and not yet read
+	n := 0
+	seq := map[string]int{"p": 0, "q": 0}
+	names := map[string][]string{"p": {"p-1", "p-2", "p-3", "p-4", "p-5", "p-6"}, "q": {"q-1", "q-2", "q-3", "q-4", "q-5", "q-6"}}
+	for s := 0; s < steps; s++ {
+		switch vChoice("op", 3) {
+		case 0: // subscribe
+			vAssume(n < maxS)
+			pf := "p"
+			if vBool("other-prefix") {
+				pf = "q"
+			}
+			subs[n] = tr.AddSequenceWaiter(pf)
+			prefix[n] = pf
+			live[n] = true
+			n++
+		case 1: // close one live subscriber
+			i := vChoice("which", maxS)
+			vAssume(i < n && live[i])
+			_ = subs[i].Close()
+			live[i] = false
+		case 2: // the DB generated a new key under a prefix
+			pf := "p"
+			if vBool("other-prefix") {
+				pf = "q"
+			}
+			k := names[pf][seq[pf]]
+			seq[pf]++
+			tr.SequenceUpdated(pf, k)
+			for i := 0; i < n; i++ {
+				if live[i] && prefix[i] == pf {
+					expect[i] = k
+				}
+			}
+		}
+		// every live subscriber sees exactly the latest key of its prefix published since it subscribed
+		for i := 0; i < n; i++ {
+			if !live[i] {
+				continue
+			}
+			select {
+			case v, ok := <-subs[i].Ch():
+				vAssert("live-subscriber-channel-open", ok)
+				vAssert("subscriber-observes-the-latest-key-of-its-prefix", v == expect[i] && expect[i] != "")
+				expect[i] = ""
+			default:
+				vAssert("no-update-lost", expect[i] == "")
+			}
+		}
+	}
+	_ = tr.Close()
+	for i := 0; i < n; i++ {
+		if live[i] {
+			_, ok := <-subs[i].Ch()
+			vAssert("tracker-close-closes-live-subscribers", !ok)
+		}
+	}
+	vReach("end")
+}
